@@ -66,8 +66,14 @@ pub fn mutate(u: &mut Un, level: &Level, argv: &mut Vec<Vec<u8>>, log: &mut Vec<
             4 if n > 0 => {
                 let at = u.below(n);
                 if argv[at].starts_with(b"-") && argv[at] != b"--" && !argv[at].contains(&b'=') {
-                    argv[at].extend_from_slice(b"=v");
-                    log.push(format!("append =v to item {}", at));
+                    if u.bool() {
+                        argv[at].extend_from_slice(b"=v");
+                        log.push(format!("append =v to item {}", at));
+                    } else {
+                        // an empty attached value is still a value
+                        argv[at].push(b'=');
+                        log.push(format!("append = to item {}", at));
+                    }
                 }
             }
             5 if n > 1 => {
@@ -105,6 +111,7 @@ pub fn mutate(u: &mut Un, level: &Level, argv: &mut Vec<Vec<u8>>, log: &mut Vec<
 pub fn decode(bytes: &[u8]) -> Case {
     let mut u = Un::new(bytes);
     let mut names = Names::new();
+    names.empty_values = true;
     let cfg = ConvCfg::default();
     let level = gen_conv_level(&mut u, &mut names, &cfg, 1);
     let (sent, expected) = gen_conv_sentence(&mut u, &mut names, &level);
